@@ -102,7 +102,7 @@ type HStep struct {
 
 // Act is one abstract fix-up segment.
 type Act struct {
-	Kind string `json:"kind"` // add_future add_before add_between replace_flag replace_name replace_target remove remove_absent
+	Kind string `json:"kind"` // add_future add_before add_between replace_flag replace_name replace_target remove remove_absent add_block
 	Pick uint64 `json:"pick"` // chooses the record / day / name deterministically
 }
 
